@@ -55,6 +55,8 @@ pub enum Val {
     P(u64),
     /// a structured value captured through serde
     L(Vec<i64>),
+    /// the null value (`None::<T>` / `Value::null()`): a property all the same -- it is visible and it shadows
+    N,
 }
 
 #[derive(Serialize, Deserialize, Debug, Clone, Copy, PartialEq, Eq)]
@@ -359,6 +361,7 @@ pub enum Held {
     T(TraceId),
     P(SpanId),
     L(Vec<i64>),
+    N,
 }
 
 impl Held {
@@ -371,6 +374,7 @@ impl Held {
             Val::T(h, l) => Held::T(TraceId::from_u128(trace_u128(*h, *l)).unwrap()),
             Val::P(v) => Held::P(SpanId::from_u64(*v).unwrap_or_else(|| SpanId::from_u64(1).unwrap())),
             Val::L(v) => Held::L(v.clone()),
+            Val::N => Held::N,
         }
     }
 
@@ -383,6 +387,7 @@ impl Held {
             Held::T(v) => Value::from_any(v),
             Held::P(v) => Value::from_any(v),
             Held::L(v) => Value::capture_serde(v),
+            Held::N => Value::null(),
         }
     }
 }
